@@ -1,4 +1,5 @@
 import RxnModel.Proofs.Splits
+import RxnModel.Generated.Facts
 /-!
 # C16 — source positions match the barrier cut; every split has exactly one reader
 
@@ -238,9 +239,9 @@ theorem restore_resumes (keep readd : Bool) (shards runners : Nat) (as : List Ac
   have := step_log keep readd s .start
   simpa [step] using this
 
-/-- **Every reported position is resumed** (a splitter that re-adds shards which have a reported position but were no
-longer assigned when its part of the checkpoint was taken: `readd = true`, the behaviour of `fixes/D52.diff`; with or
-without persisting withheld shards). For every history: a restart hands out every shard of the stream for which the
+/-- **Every reported position is resumed** (the code as it is, `keep = false`, after the D52 repair /repo c7455f1:
+`resumeFinishedShards` re-adds shards which have a reported position but were no longer assigned when the splitter's
+part of the checkpoint was taken, `readd = true`; also for the ideal splitter that persists withheld shards). For every history: a restart hands out every shard of the stream for which the
 checkpoint holds a position, with that position, or the shard waits for a tracked parent. -/
 theorem reported_positions_resumed (keep : Bool) (shards runners : Nat) (as : List Act) (c : Ckpt) :
     let s := run keep true (initSp shards runners) as
@@ -252,12 +253,11 @@ theorem reported_positions_resumed (keep : Bool) (shards runners : Nat) (as : Li
   exact reported_resumed keep true s (Inv.run keep true as _ (Inv.init shards runners)) c hck i sh hsh hst
     (fun _ _ => rfl)
 
-/-- **Every reported position is resumed, the code as it is** (partial; D52 open). Full statement: as
-`reported_positions_resumed` with `run false false`. Proved for positions of shards that, when the splitter's part of
-the checkpoint was taken (`Store.finishSnapshot`, after the last acknowledgement), were still tracked and assigned, or
-not yet passed by discovery. Excluded: a shard that finished between its runner's barrier and that moment (D52: it is
-in no list of the checkpoint any more). -/
-theorem reported_positions_resumed_partial (shards runners : Nat) (as : List Act) (c : Ckpt) :
+/-- History (the rule before the D52 repair, `readd = false`): positions were resumed only for shards that, when the
+splitter's part of the checkpoint was taken (`Store.finishSnapshot`, after the last acknowledgement), were still
+tracked and assigned, or not yet passed by discovery; a shard that finished between its runner's barrier and that
+moment was in no list of the checkpoint any more (`reported_positions_resumed_counterexample`). -/
+theorem reported_positions_resumed_old_rule (shards runners : Nat) (as : List Act) (c : Ckpt) :
     let s := run false false (initSp shards runners) as
     s.ck = some c →
     ∀ (i : Nat) (sh : Shard), s.stream[i]? = some sh → i ∈ c.states.map (·.1) →
@@ -347,6 +347,14 @@ theorem job_resumes_restored_cut (as : List JAct) :
 example : (jrun {} [.start false, .ckpt 10 false, .ckpt 20 true, .start true, .start false]).2 =
     [(none, none), (some 1, some 10), (some 2, some 20)] := by decide
 
+/-- **The splitter's checkpoint is one consistent view** (structural fact, regenerated from the source on every run by
+`tools/gofacts/facts_c16.go`): `SourceSplitter.Checkpoint` obtains the assigned shards and `LastAssignedSplitID` from
+ONE call of a `SplitTracker` method that holds the tracker's mutex for its whole body, and reads neither of them
+anywhere else. This is what makes the model's atomic `checkpoint` step right (D61, repaired in /repo 3c1870d: the
+list was read under the mutex and the id afterwards without it, so an assignment in between produced a checkpoint
+whose id covered shards missing from its list). -/
+theorem checkpoint_is_one_locked_read : Facts.c16CheckpointOneLockedRead = 1 := by decide
+
 /-! ### non-vacuity and the open finding -/
 
 /-- a small stream: shard 0 → 2,3; shard 1 → 4,5; later shard 2 → 6,7 -/
@@ -357,16 +365,16 @@ example : (run true true (initSp 2 2) witness).log = [0, 4, 5] := by decide
 example : ((run true true (initSp 2 2) witness).ck.map fun c => (c.tr.assigned, c.tr.next, c.good)) = some ([5, 4, 0], 6, false) := by
   decide
 example : (restart true true (run true true (initSp 2 2) (witness.take 7))).2 = [[(0, 0, 7), (1, 4, 9), (1, 5, 0)]] := by decide
-example : (restart false false (run false false (initSp 2 2) (witness.take 7))).2 =
+example : (restart false true (run false true (initSp 2 2) (witness.take 7))).2 =
     [[(0, 7, 0), (0, 6, 0), (0, 0, 7), (1, 4, 9), (1, 5, 0)]] := by decide
 
 /-- D16c on the model of the code as it is: after the restore the grandchildren 6,7 of the unfinished shard 0 are
 handed out although their parent 2 was never read (and 2,3 are lost) -/
 theorem children_withheld_counterexample :
-    let s := run false false (initSp 2 2) witness
+    let s := run false true (initSp 2 2) witness
     s.tainted = true ∧ 6 ∈ s.log ∧ s.stream[6]?.map (·.parents) = some [2] ∧ 2 ∉ s.done := by decide
 
-/-- D52 on the model of the code as it is (the auditor's witness): shard 0 is split, its children are discovered;
+/-- D52 on the model of the code before the repair (`readd = false`; the auditor's witness): shard 0 is split, its children are discovered;
 the runner reports position 5 of shard 0 at the barrier, shard 0 finishes before the splitter's part of the checkpoint
 is taken; the restart hands out only the children — shard 0, which the operators' state covers up to position 5 only,
 is never read again -/
@@ -384,7 +392,7 @@ example : (restart false true (run false true (initSp 1 1) witnessD52)).2 = [[(0
 
 /-- ... and after shard 0 finishes and a discovery tick its children 2,3 are still not handed out -/
 theorem assignable_is_assigned_counterexample :
-    let s := run false false (initSp 2 2) (witness ++ [.finish [0], .tick])
+    let s := run false true (initSp 2 2) (witness ++ [.finish [0], .tick])
     s.wild = false ∧ s.stream[2]?.map (·.parents) = some [0] ∧ 0 ∈ s.done ∧ 2 ∉ s.done ∧ 2 ∉ s.log := by decide
 
 end Rxn.C16
